@@ -300,16 +300,31 @@ from poetry.core.masonry import api
 logging.getLogger("poetry.core").setLevel(logging.CRITICAL)
 import json
 cfg = json.loads(sys.argv[4]) or None
-for fn, sub in ((api.build_wheel, "w"), (api.build_sdist, "s")):
+fns = [(api.build_wheel, "w"), (api.build_sdist, "s")]
+if len(sys.argv) > 5 and sys.argv[5] == "editable":
+    fns.append((api.build_editable, "e"))
+for fn, sub in fns:
     out = os.path.join(sys.argv[3], sub); os.makedirs(out, exist_ok=True)
     n = fn(out, cfg)
     print(n, hashlib.sha256(open(os.path.join(out, n), "rb").read()).hexdigest())
 """
 
 
-def hashseed_case(ctx: core.Ctx, p: gen_project.Project, seeds: tuple[int, int], stream: str) -> None:
+def two_bases_project() -> gen_project.Project:
+    """regression for repo fix 15ba16f: an editable wheel whose .pth lists two include bases (formerly written in
+    set-iteration order, so the bytes depended on PYTHONHASHSEED)"""
+    py = ('[tool.poetry]\nname = "two-bases"\nversion = "1.0"\ndescription = ""\nauthors = []\n'
+          'packages = [{ include = "aa", from = "lib" }, { include = "bb", from = "src" }, { include = "cc", from = "third/party" }]\n\n'
+          '[tool.poetry.dependencies]\npython = ">=3.8"\n\n' + gen_project.BUILD_SYSTEM)
+    files = [gen_project.FileSpec(f"{d}/__init__.py", b"x = 1\n") for d in ("lib/aa", "src/bb", "third/party/cc")]
+    return gen_project.Project("two-bases", "1.0", "poetry", py, files, None, ["corpus", "editable-two-bases"],
+                               {"module": "two_bases", "editable": True})
+
+
+def hashseed_case(ctx: core.Ctx, p: gen_project.Project, seeds: tuple[int, ...], stream: str) -> None:
     """str-hash randomisation (PYTHONHASHSEED) changes every set/dict-of-str iteration order: build in two fresh
-    interpreters and compare bytes (wheel + sdist; the editable .pth is out of scope, see the report)."""
+    interpreters and compare bytes (wheel + sdist; for projects marked `editable` in their meta also the editable wheel,
+    built at the same path)."""
     import json
     import subprocess
     base = bc.scratch("pcv-c08h-")
@@ -323,12 +338,12 @@ def hashseed_case(ctx: core.Ctx, p: gen_project.Project, seeds: tuple[int, int],
             env = dict(os.environ, PYTHONHASHSEED=str(sd))
             env.pop("SOURCE_DATE_EPOCH", None)
             r = subprocess.run([core.PY, "-c", HASHSEED_SCRIPT, str(core.REPO / "src"), str(root), str(o),
-                                json.dumps(p.config_settings)], capture_output=True, text=True, env=env, timeout=120)
+                                json.dumps(p.config_settings), "editable" if p.meta.get("editable") else "-"], capture_output=True, text=True, env=env, timeout=120)
             outs.append(r.stdout.split() if r.returncode == 0 else ["failed", r.stderr[-200:]])
         ctx.case("hashseed|" + p.signature(), nontrivial=outs[0][:1] != ["failed"], sample={"hashseed": list(seeds), "result": outs[0][:2]})
         ctx.count("hashseed")
-        if outs[0] != outs[1]:
-            ctx.violate("hashseed:" + p.signature(), f"wheel/sdist of {p.name} {p.version} differ between PYTHONHASHSEED={seeds[0]} and {seeds[1]}: {outs[0]} vs {outs[1]}"[:500], wit)
+        if any(o != outs[0] for o in outs[1:]):
+            ctx.violate("hashseed:" + p.signature(), f"archives of {p.name} {p.version} differ between PYTHONHASHSEED values {list(seeds)}: {outs}"[:600], wit)
         ctx.stream(stream, 1, 0)
     finally:
         bc.rmtree(base)
@@ -396,6 +411,7 @@ def time_stream(ctx: core.Ctx) -> None:
 
 def correspondence(ctx: core.Ctx) -> None:
     time_stream(ctx)
+    hashseed_case(ctx, two_bases_project(), (1, 3, 4, 6), "hashseed")   # seeds that gave both orders before 15ba16f
     rnd = ctx.rng
     n = ctx.budget(25, 300)
     for i in range(n):
